@@ -62,7 +62,17 @@ def run(ctx):
     int_jobs = []
     for op in sorted(int_by_op):
         n = (6, 200) if op in c14.HEAVY else (10, 500)
-        int_jobs += pick(int_by_op[op], n[0 if quick else 1], rnd)
+        chosen = pick(int_by_op[op], n[0 if quick else 1], rnd)
+        if op == "from_bytes":
+            # every (byte order, container) combination at least once: the back-ends treat the caller's buffer differently per combination
+            for bo in ("little", "big", "default"):
+                for cont in ("bytearray", "memoryview", "bytes"):
+                    want = "%s,%s" % (bo, cont)
+                    if not any(j.get("flag", "").endswith(want) for j in chosen):
+                        cand = sorted((j for j in int_by_op[op] if j.get("flag", "").endswith(want)), key=lambda j: json.dumps(j, sort_keys=True))
+                        if cand:
+                            chosen.append(cand[rnd.randrange(len(cand))])
+        int_jobs += chosen
     pk_jobs = sorted(by_fam["pk"] + by_fam["pkviol"], key=lambda j: (j["fam"], j["op"], j["idx"]))
     aes_jobs = []
     by_mode = {}
